@@ -69,6 +69,10 @@ def run(tier):
     nparsed = 0
     for p, r in zip(progs, res):
         check.count()
+        if str(r.get("panic") or "").startswith("verif: node of unknown kind"):
+            check.violation({"class": "C12.foreign-node-kind", "kind": str(r["panic"]).split(" ")[-1], "parent": None, "role": None},
+                            {"src": p["src"], "ver": p["ver"], "observed": r["panic"]})
+            continue
         if r.get("panic") or r.get("hang") or r.get("crash") or not r.get("root"):
             continue      # crashes on these inputs are C01's business
         nparsed += 1
